@@ -36,9 +36,11 @@ RULE = ("every binary operator (+ - * / and or xor == != < <= > >=) x right-hand
         "a request X op0 R0 on a small initial tensor, then 1..3 in-place element assignments on X (3 of 4 histories grow the shape past its bounds, "
         "also by a zero assigned outside; entries added, overwritten, deleted), then a second request that uses the SAME object (left operand, or sparse "
         "right operand) and the same request on the tensor rebuilt by the constructor: EVERY pair (first request, second request) of the request table "
-        "(every operator x {scalar, dense, sparse} + neg / not / ones / elemfun; 43 x 43 pairs + 43 x 12 with the object on the right), the three raw "
-        "results against the element-wise specification and the two second results equal list for list; sparse / dense requests run a second time "
-        "list for list against the transliteration (divmodel)")
+        "(every operator x {scalar, dense, sparse} + neg / not / ones / elemfun; 43 x 43 pairs + 43 x 12 with the object on the right + 6 more histories "
+        "for every pair (q, q): per-operator state), both spellings of the assignment (S[i1,..,iN] = v -> _set_subtensor, S[M] = v -> _set_subscripts) "
+        "alternating, the three raw results against the element-wise specification, the two second results equal list for list, the object's lists "
+        "after its history equal to the Coq model sp_assigns; the same with the DENSE right operand as the object with a history (T[i] = v grows "
+        "it; 12 x 12 operator pairs + 6 per diagonal pair); sparse / dense requests run a second time list for list against the transliteration (divmodel)")
 CORRESPONDENCE_ONLY = []   # filled below
 EXPLANATION = ("pyttb's raw result (sparse: shape/subs/vals lists; dense: F-order data) is compared in Coq against the executable "
                "element-wise specification spec_ew / spec_div (Model/C03Ops.v; two-step histories: spec_then, Model/C03Chk.v) evaluated on "
@@ -376,6 +378,11 @@ def gen_cases(rng, tier):
                 if op1 != "div":
                     cases.append(hist_case(rng, k, q0, (op1, "sparse"), "B"))
                     k += 1
+    #     per-operator state: the SAME request before and after the mutation, 6 (12) more histories each
+    for rep in range(12 if big else 6):
+        for q in reqs:
+            cases.append(hist_case(rng, k, q, q, "A"))
+            k += 1
     #     who = "T": the object with a history is the DENSE right operand (element assignments grow it: pyttb installs a new zero array):
     #     every (first operator, second operator) pair with a dense operand
     dense_ops = [op for op in U.BINOPS if op != "div"]
@@ -384,6 +391,10 @@ def gen_cases(rng, tier):
             for op1 in dense_ops:
                 cases.append(hist_case_dense(rng, k, op0, op1))
                 k += 1
+    for rep in range(12 if big else 6):
+        for op0 in dense_ops:
+            cases.append(hist_case_dense(rng, k, op0, op0))
+            k += 1
     # 9. the witnesses of the repaired findings, as ordinary regression cases
     for op, a in REGRESSION:
         add(op, {k: (list(v) if isinstance(v, list) else v) for k, v in a.items()})
@@ -470,7 +481,8 @@ def hist_case(rng, k, q0, q1, who):
         sub = [rng.randrange(d) for d in shape]
         assigns.append([sub, 0 if rng.random() < 0.3 else rng.choice(VALS)])
     shape, subs, vals = U.sim_assign(shape0, subs0, vals0, assigns)
-    hist = {"who": who, "a0": a0, "assign": assigns}
+    # both spellings of a single-element assignment: S[i1, ..., iN] = v (-> _set_subtensor) and S[M] = v, M a 1 x N array (-> _set_subscripts)
+    hist = {"who": who, "a0": a0, "assign": assigns, "keys": [("tuple", "array")[(k + j) % 2] for j in range(len(assigns))]}
     if who == "A":
         a = hist_rhs({"shape": shape, "subs": subs, "vals": vals}, q1[1], rng)
     else:
@@ -868,6 +880,7 @@ CORRESPONDENCE_ONLY = [
     "C03_mul_kruskal_filtered, findings C03-K1 / C03-K2 fixed in d4293a0.) Memory layout of the factor matrices, Kruskal operand unchanged after "
     "the call: correspondence only",
     "order-0 operands (pyttb's shape () = the empty tensor): closed theorems C03_order0_generic / C03_order0_generated for the algorithms that do "
-    "not enumerate the shape / take pyttb's enumeration as a parameter; the remaining paths (== scalar/dense, logical_not via the hand models, dense "
-    "results) by the correspondence checkers ord0_sp_ok / ord0_dense_ok only; open finding C03-Z0 (order-0 dense operand raises)",
+    "not enumerate the shape / take pyttb's enumeration as a parameter, C03_order0_enumerating (wave 5) for != scalar, == scalar, / scalar over the "
+    "generated tt_setdiff_rows and * / logical_and with the dense operand; the remaining paths (dense results through full(), the hand models over "
+    "Base.Index.allsubs) by the correspondence checkers ord0_sp_ok / ord0_dense_ok only; open finding C03-Z0 (order-0 dense operand raises)",
 ]
